@@ -1032,6 +1032,27 @@ func (c *specCtx) call(n *ast.CallExpr) (sv, error) {
 			return sv{}, err
 		}
 		return c.mk(types.Typ[types.UnsafePointer], "(i-tag "+v.S+")"), nil
+	case "nth":
+		// nth(callee, k): the first result of the k-th (1-based) counted call of callee made by the
+		// function under verification (ghost array filled by count_calls)
+		nm, ok := args[0].(*ast.Ident)
+		if !ok || len(args) != 2 {
+			return sv{}, c.errf("nth(callee, k)")
+		}
+		g := nm.Name + "_rets"
+		t, have := e.ghostTypes[g]
+		if !have {
+			return sv{}, c.errf("nth: %s is not counted (count_calls) or returns nothing", nm.Name)
+		}
+		k, err := c.eval(args[1])
+		if err != nil {
+			return sv{}, err
+		}
+		if k, err = c.coerce(k, tInt); err != nil {
+			return sv{}, err
+		}
+		arr := e.ghostGet(c.st, g, t, e.sc.zero(t))
+		return c.mk(t.(*types.Array).Elem(), fmt.Sprintf("(select %s %s)", arr.S, k.S)), nil
 	case "sent", "sentval", "recvd", "closed", "selrecvd":
 		// ghost record of channel sends performed by the function under verification
 		v, err := c.eval(args[0])
